@@ -52,11 +52,23 @@ func (s *speller) alt(l string) bool {
 	return false
 }
 
-var wsAlts = []string{" ", "  ", "\t", "\n", "\r\n", "/**/", " /* c */ ", "/* * / */", " /*\n*/ "}
+var wsAlts = []string{" ", "  ", "\t", "\n", "\r\n", "/**/", " /* c */ ", "/* * / */", " /*\n*/ ", "/*/ c */", "/*//*/", "/***/", "/*/**/", "/* /* */"}
 
 // ws emits optional (or, if required, mandatory) inter-token space.
 func (s *speller) ws(required bool) {
 	if s.alt("ws") {
+		if s.n(4, "wsgen") == 0 {
+			// a comment with a generated body: any text without the terminator
+			parts := []string{"*", "/", " ", "a", "\n", "é", "**", "//", "/*", "$", "\"", "\\", "* /"}
+			body := ""
+			for i, k := 0, s.n(6, "cmtlen"); i < k; i++ {
+				body += parts[s.n(len(parts), "cmtp")]
+			}
+			if strings.Index(body+"*/", "*/") == len(body) {
+				s.b.WriteString("/*" + body + "*/")
+				return
+			}
+		}
 		s.b.WriteString(wsAlts[s.n(len(wsAlts), "wsk")])
 		return
 	}
@@ -658,12 +670,34 @@ func isBareIdent(k string) bool {
 		switch {
 		case r == '_' || (r >= 'a' && r <= 'z') || (r >= 'A' && r <= 'Z'):
 		case r >= '0' && r <= '9' && i > 0:
-		case strings.ContainsRune("éüñλжあ漢𝒳", r):
+		case strings.ContainsRune("éüñλжあ漢𝒳", r) || isSafeLetter(r):
 		default:
 			return false
 		}
 	}
 	return true
+}
+
+// isSafeLetter: letters of blocks in which every listed code point is a letter
+// with the XID_Start property (so the documented identifier rule admits it at
+// any position): Latin Extended-A, Greek capitals and smalls, basic Cyrillic,
+// Hiragana, CJK Unified Ideographs, Hangul syllables.
+func isSafeLetter(r rune) bool {
+	switch {
+	case r >= 0x0100 && r <= 0x017F && r != 0x0149 && r != 0x017F: // two have compatibility decompositions
+		return true
+	case (r >= 0x0391 && r <= 0x03A1) || (r >= 0x03A3 && r <= 0x03C9):
+		return true
+	case r >= 0x0400 && r <= 0x0481:
+		return true
+	case r >= 0x3041 && r <= 0x3096:
+		return true
+	case r >= 0x4E00 && r <= 0x9FA5:
+		return true
+	case r >= 0xAC00 && r <= 0xD7A3:
+		return true
+	}
+	return false
 }
 
 func isBareVar(k string) bool {
@@ -673,7 +707,7 @@ func isBareVar(k string) bool {
 	for _, r := range k {
 		switch {
 		case r == '_' || (r >= 'a' && r <= 'z') || (r >= 'A' && r <= 'Z') || (r >= '0' && r <= '9'):
-		case strings.ContainsRune("éüñλжあ漢", r):
+		case strings.ContainsRune("éüñλжあ漢", r) || isSafeLetter(r):
 		default:
 			return false
 		}
